@@ -3,6 +3,7 @@ package chk
 // Additional narrow rules added after the second round of seeded changes.
 
 import (
+	"fmt"
 	"go/constant"
 	"go/token"
 	"strings"
@@ -335,4 +336,510 @@ func ruleTrexFallback(c *Ctx, r *Report) {
 	}
 	_ = n
 	r.Floor("O-FALLBACK", 5)
+}
+
+// ruleIndependentEnds — loops that adjust the first element (`if i == 0`) and the last element
+// (`if i == len-1`) of a sequence: the two adjustments are independent — when the sequence has one element both
+// apply. They must not be mutually exclusive arms (an if/else-if or a switch): the last-element arm must be
+// reachable from the first-element arm within one iteration.
+func ruleIndependentEnds(c *Ctx, r *Report, rule string, scope func(*ssa.Function) bool, floor int) {
+	n := 0
+	for _, f := range c.RepoFuncs(nil) {
+		if f.Synthetic != "" || (scope != nil && !scope(f)) || strings.HasSuffix(c.Fset.Position(f.Pos()).Filename, "_test.go") {
+			continue
+		}
+		for _, l := range naturalLoops(f) {
+			var firstArms, lastArms []*ssa.BasicBlock
+			var firstIf, lastIf []*ssa.If
+			for b := range l.blocks {
+				if len(b.Instrs) == 0 {
+					continue
+				}
+				ifi, ok := b.Instrs[len(b.Instrs)-1].(*ssa.If)
+				if !ok {
+					continue
+				}
+				bo, ok := ifi.Cond.(*ssa.BinOp)
+				if !ok || bo.Op != token.EQL {
+					continue
+				}
+				if !dependsOnLoopPhi(bo.X, l, 0) {
+					continue
+				}
+				if cs, ok := constSet(bo.Y, 0); ok && len(cs) == 1 && cs[0] == 0 {
+					firstArms = append(firstArms, b.Succs[0])
+					firstIf = append(firstIf, ifi)
+					continue
+				}
+				// len(x) - 1
+				if sub, ok := stripConv(bo.Y).(*ssa.BinOp); ok && sub.Op == token.SUB {
+					if cs, ok := constSet(sub.Y, 0); ok && len(cs) == 1 && cs[0] == 1 {
+						if call, ok := stripConv(sub.X).(*ssa.Call); ok {
+							if bi, ok := call.Call.Value.(*ssa.Builtin); ok && bi.Name() == "len" {
+								lastArms = append(lastArms, b.Succs[0])
+								lastIf = append(lastIf, ifi)
+							}
+						}
+					}
+				}
+				// a variable holding len(x)-1 (lastChunkIdx := len(chunks) - 1)
+			}
+			if len(firstArms) == 0 || len(lastArms) == 0 {
+				continue
+			}
+			n++
+			key := fmt.Sprintf("%s:%s", SSAFuncName(f), srcOf(f, firstPos(l.header.Succs[0]), "loop", "loop"))
+			// within one iteration: from the first arm, reach the block of the last test without passing the header
+			ok := false
+			for _, fa := range firstArms {
+				for _, li := range lastIf {
+					if reachesAvoiding(fa, li.Block(), l.header, l) {
+						ok = true
+					}
+				}
+			}
+			if ok {
+				r.OK(rule, key, c.Pos(firstIf[0].Pos()), "the first-element and last-element adjustments can both apply in one iteration")
+			} else {
+				r.Bad(rule, key, c.Pos(lastIf[0].Pos()), "the adjustment of the last element is in an arm that excludes the adjustment of the first element: for a one-element sequence the end is not clipped")
+			}
+		}
+	}
+	r.Floor(rule, floor)
+}
+
+func reachesAvoiding(from, to, avoid *ssa.BasicBlock, l *loopInfo) bool {
+	seen := map[*ssa.BasicBlock]bool{avoid: true}
+	stack := []*ssa.BasicBlock{from}
+	for len(stack) > 0 {
+		b := stack[len(stack)-1]
+		stack = stack[:len(stack)-1]
+		if b == to {
+			return true
+		}
+		if seen[b] || !l.blocks[b] {
+			continue
+		}
+		seen[b] = true
+		stack = append(stack, b.Succs...)
+	}
+	return false
+}
+
+// ruleFreshCBC (C07) — cbcs: every protected range is CBC-coded starting from the constant IV, so the
+// cipher.BlockMode on which CryptBlocks is called is created (NewCBCEncrypter/Decrypter) in the function that
+// codes one range, or — when passed in — inside the same loop iteration as the call that codes the range.
+func ruleFreshCBC(c *Ctx, r *Report) {
+	n := 0
+	for _, f := range c.RepoFuncs(IsLib) {
+		if f.Pkg == nil || f.Pkg.Pkg.Name() != "mp4" || f.Synthetic != "" {
+			continue
+		}
+		for _, b := range f.Blocks {
+			for _, ins := range b.Instrs {
+				call, ok := ins.(*ssa.Call)
+				if !ok || !call.Call.IsInvoke() || call.Call.Method.Name() != "CryptBlocks" {
+					continue
+				}
+				key := SSAFuncName(f) + ":CryptBlocks"
+				n++
+				recv := call.Call.Value
+				if originatesFromCBC(recv, 0) {
+					if n > 0 {
+						r.OKOnce("O-FRESHIV", key, c.Pos(call.Pos()), "the block mode is created from the IV in the function that codes one range")
+					}
+					continue
+				}
+				if par, ok := recv.(*ssa.Parameter); ok {
+					// every caller creates it in the same loop iteration as the call
+					bad := ""
+					idx := -1
+					for i, p := range f.Params {
+						if p == par {
+							idx = i
+						}
+					}
+					node := c.CallGraph().Nodes[f]
+					if node != nil {
+						for _, e := range node.In {
+							if e.Site == nil || idx < 0 {
+								continue
+							}
+							arg := e.Site.Common().Args[idx]
+							cf := e.Caller.Func
+							mk, isCall := arg.(*ssa.Call)
+							if !isCall && !originatesFromCBC(arg, 0) {
+								bad = "the block mode passed by " + SSAFuncName(cf) + " is not created by NewCBCEncrypter/Decrypter there"
+								continue
+							}
+							for _, lp := range naturalLoops(cf) {
+								if lp.blocks[e.Site.Block()] {
+									in := isCall && lp.blocks[mk.Block()]
+									if !isCall {
+										in = false
+										if src := cbcSource(arg, 0); src != nil && lp.blocks[src.Block()] {
+											in = true
+										}
+									}
+									if !in {
+										bad = "the block mode is created in " + SSAFuncName(cf) + " outside the loop over the protected ranges and reused for every range: CBC chaining carries over from one range to the next"
+									}
+								}
+							}
+						}
+					}
+					if bad != "" {
+						r.Bad("O-FRESHIV", key, c.Pos(call.Pos()), bad)
+					} else {
+						r.OKOnce("O-FRESHIV", key, c.Pos(call.Pos()), "callers create the block mode in the iteration that codes the range")
+					}
+					continue
+				}
+				r.OKOnce("O-FRESHIV", key+":ctr", c.Pos(call.Pos()), "not a CBC block mode (stream cipher)")
+			}
+		}
+	}
+	r.Floor("O-FRESHIV", 1)
+}
+
+func cbcSource(v ssa.Value, depth int) *ssa.Call {
+	if depth > 5 {
+		return nil
+	}
+	switch x := v.(type) {
+	case *ssa.Call:
+		n := calleeName(x.Common())
+		if strings.HasSuffix(n, "cipher.NewCBCEncrypter") || strings.HasSuffix(n, "cipher.NewCBCDecrypter") {
+			return x
+		}
+	case *ssa.Phi:
+		for _, e := range x.Edges {
+			if s := cbcSource(e, depth+1); s != nil {
+				return s
+			}
+		}
+	case *ssa.MakeInterface:
+		return cbcSource(x.X, depth+1)
+	case *ssa.ChangeInterface:
+		return cbcSource(x.X, depth+1)
+	case *ssa.UnOp:
+		if al, ok := x.X.(*ssa.Alloc); ok {
+			for _, ref := range *al.Referrers() {
+				if st, ok := ref.(*ssa.Store); ok && st.Addr == ssa.Value(al) {
+					if s := cbcSource(st.Val, depth+1); s != nil {
+						return s
+					}
+				}
+			}
+		}
+	}
+	return nil
+}
+
+func originatesFromCBC(v ssa.Value, depth int) bool { return cbcSource(v, depth) != nil }
+
+// ruleNoReaderAliasing (C20/C04) — decoders on the io.Reader path copy what they keep: no call in the library
+// to reader methods that hand out the reader's own storage ((*bytes.Buffer).Next/Bytes, (*bufio.Reader).Peek).
+func ruleNoReaderAliasing(c *Ctx, r *Report) {
+	forbidden := []string{"(*bytes.Buffer).Next", "(*bytes.Buffer).Bytes", "(*bufio.Reader).Peek", "(*bytes.Reader).WriteTo"}
+	n := 0
+	funcs := 0
+	for _, f := range c.RepoFuncs(IsLib) {
+		if f.Synthetic != "" || strings.HasSuffix(c.Fset.Position(f.Pos()).Filename, "_test.go") {
+			continue
+		}
+		takesReader := false
+		for _, p := range f.Params {
+			if p.Type().String() == "io.Reader" || p.Type().String() == "io.ReadSeeker" {
+				takesReader = true
+			}
+		}
+		if !takesReader {
+			continue
+		}
+		funcs++
+		for _, b := range f.Blocks {
+			for _, ins := range b.Instrs {
+				call, ok := ins.(ssa.CallInstruction)
+				if !ok {
+					continue
+				}
+				g := call.Common().StaticCallee()
+				if g == nil {
+					continue
+				}
+				for _, fb := range forbidden {
+					if g.String() == fb {
+						// only when the receiver comes from the reader parameter (type assertion), not from a local buffer
+						if fromReaderParam(call.Common().Args[0], 0) {
+							n++
+							r.Bad("R4", SSAFuncName(f)+":"+fb, c.Pos(call.Pos()), "the decoder keeps a slice of the reader's own storage ("+fb+" on the io.Reader it was given): later in-place operations on the decoded data modify the caller's input, and concurrent decodes of the same bytes interfere")
+						}
+					}
+				}
+			}
+		}
+	}
+	if funcs < 60 {
+		r.Undecided("R4", "scope", "", fmt.Sprintf("only %d library functions take an io.Reader", funcs))
+	} else if n == 0 {
+		r.OK("R4", "no-reader-aliasing", "", fmt.Sprintf("%d library functions taking an io.Reader examined: none calls a storage-sharing method of bytes.Buffer/bufio.Reader on it", funcs))
+	}
+}
+
+func fromReaderParam(v ssa.Value, depth int) bool {
+	if depth > 5 {
+		return false
+	}
+	switch x := v.(type) {
+	case *ssa.Parameter:
+		return x.Type().String() == "io.Reader" || x.Type().String() == "io.ReadSeeker"
+	case *ssa.TypeAssert:
+		return fromReaderParam(x.X, depth+1)
+	case *ssa.Extract:
+		return fromReaderParam(x.Tuple, depth+1)
+	case *ssa.Phi:
+		for _, e := range x.Edges {
+			if fromReaderParam(e, depth+1) {
+				return true
+			}
+		}
+	case *ssa.ChangeInterface:
+		return fromReaderParam(x.X, depth+1)
+	}
+	return false
+}
+
+// ruleNoMdatHeaderConstant — the start of the mdat payload comes from the box (HeaderSize /
+// PayloadAbsoluteOffset, 8 or 16 bytes): no function adds a constant to MdatBox.StartPos.
+func ruleNoMdatHeaderConstant(c *Ctx, r *Report, rule string) {
+	n := 0
+	uses := 0
+	for _, f := range c.RepoFuncs(nil) {
+		if f.Synthetic != "" || strings.HasSuffix(c.Fset.Position(f.Pos()).Filename, "_test.go") {
+			continue
+		}
+		for _, b := range f.Blocks {
+			for _, ins := range b.Instrs {
+				if v, ok := ins.(ssa.Value); ok && isDirectFieldLoad(v, "MdatBox.StartPos") {
+					uses++
+				}
+				bo, ok := ins.(*ssa.BinOp)
+				if !ok || bo.Op != token.ADD {
+					continue
+				}
+				for i, o := range []ssa.Value{bo.X, bo.Y} {
+					other := []ssa.Value{bo.Y, bo.X}[i]
+					if !isDirectFieldLoad(stripConv(o), "MdatBox.StartPos") {
+						continue
+					}
+					if cs, ok := constSet(other, 0); ok && len(cs) == 1 && cs[0] > 0 {
+						n++
+						r.Bad(rule, SSAFuncName(f)+":mdat.StartPos+"+fmt.Sprint(cs[0]), c.Pos(bo.Pos()), "the payload start is computed as StartPos plus a constant: a mdat box with a 16-byte (largesize) header is read 8 bytes off")
+					}
+				}
+			}
+		}
+	}
+	if uses < 3 {
+		r.Undecided(rule, "mdat-start-uses", "", fmt.Sprintf("only %d reads of MdatBox.StartPos found", uses))
+	} else if n == 0 {
+		r.OK(rule, "mdat-payload-start", "", fmt.Sprintf("%d reads of MdatBox.StartPos: none is offset by a constant header length", uses))
+	}
+}
+
+// ruleMdatEmptyTest (C08) — File.AddChild keeps the first non-empty mdat of a progressive file: the emptiness
+// test must see a lazily decoded mdat as non-empty, i.e. depend on MdatBox.lazyDataSize (through Size()).
+func ruleMdatEmptyTest(c *Ctx, r *Report) {
+	f := c.ssaFunc(r, "DEP", "mp4", "File.AddChild")
+	if f == nil {
+		return
+	}
+	key := "mp4.File.AddChild:mdat-empty-test"
+	sts := storesTo(f, "File.Mdat")
+	if len(sts) == 0 {
+		r.Undecided("DEP", key, c.Pos(f.Pos()), "no store to File.Mdat")
+		return
+	}
+	ok := false
+	for _, st := range sts {
+		for _, cond := range controlCondsDeep(st.Block()) {
+			sl := backSlice(c, cond, 2)
+			if sliceHas(sl, "field", "MdatBox.lazyDataSize") {
+				ok = true
+			}
+		}
+	}
+	if ok {
+		r.OK("DEP", key, c.Pos(sts[0].Pos()), "the test that the previous mdat is empty depends on the lazily decoded size")
+	} else {
+		r.Bad("DEP", key, c.Pos(sts[0].Pos()), "the test that the previous mdat is empty does not depend on MdatBox.lazyDataSize: a lazily decoded mdat always looks empty and a later mdat replaces it")
+	}
+}
+
+// ruleChunkEntryWalk (C09) — GetContainingChunks: the stsc entry used for a chunk is looked up per chunk:
+// inside the chunk loop an element of Entries is loaded with an index that changes in the loop.
+func ruleChunkEntryWalk(c *Ctx, r *Report) {
+	f := c.ssaFunc(r, "DEP", "mp4", "StscBox.GetContainingChunks")
+	if f == nil {
+		return
+	}
+	key := "mp4.StscBox.GetContainingChunks:entry-per-chunk"
+	found := false
+	for _, l := range naturalLoops(f) {
+		for b := range l.blocks {
+			for _, ins := range b.Instrs {
+				ia, ok := ins.(*ssa.IndexAddr)
+				if !ok || !isDirectFieldLoad(ia.X, "StscBox.Entries") {
+					continue
+				}
+				if dependsOnLoopPhi(ia.Index, l, 0) {
+					found = true
+				}
+			}
+		}
+	}
+	if found {
+		r.OK("DEP", key, c.Pos(f.Pos()), "inside the chunk loop the stsc entry is loaded with an index that advances with the chunks")
+	} else {
+		r.Bad("DEP", key, c.Pos(f.Pos()), "inside the chunk loop no stsc entry is loaded with a loop-variant index: chunks of intermediate entries are described with the wrong samples-per-chunk")
+	}
+}
+
+// ruleStssPresence (C09) — a present stss decides the sync status also when it is empty (no sync samples):
+// the call of IsSyncSample is control dependent only on the nil test of the box.
+func ruleStssPresence(c *Ctx, r *Report) {
+	f := c.ssaFunc(r, "DEP", "mp4", "createSampleFlagsFromProgressiveBoxes")
+	if f == nil {
+		return
+	}
+	key := "mp4.createSampleFlagsFromProgressiveBoxes:stss-presence"
+	calls := callsIn(f, "StssBox.IsSyncSample", false)
+	if len(calls) == 0 {
+		r.Bad("DEP", key, c.Pos(f.Pos()), "the sync status is not taken from the stss box")
+		return
+	}
+	for _, ci := range calls {
+		bad := false
+		for _, cond := range controlCondsDeep(ci.Block()) {
+			sl := backSlice(c, cond, 1)
+			if sliceHas(sl, "call", "StssBox.EntryCount") || sliceHas(sl, "field", "StssBox.SampleNumber") {
+				bad = true
+			}
+		}
+		if bad {
+			r.Bad("DEP", key, c.Pos(ci.Pos()), "the stss box is consulted only when it has entries: an empty stss (no sync samples) is treated like an absent one (all samples sync)")
+		} else {
+			r.OK("DEP", key, c.Pos(ci.Pos()), "the stss box is consulted whenever it is present")
+		}
+	}
+}
+
+// ruleResolvedDefault (C11/C12) — TrunBox.Duration / CommonSampleDuration take the default sample duration
+// resolved from tfhd with trex as fallback: the argument depends on both.
+func ruleResolvedDefault(c *Ctx, r *Report, rule string) {
+	n := 0
+	for _, f := range c.RepoFuncs(nil) {
+		if f.Synthetic != "" || strings.HasSuffix(c.Fset.Position(f.Pos()).Filename, "_test.go") {
+			continue
+		}
+		for _, name := range []string{"TrunBox.Duration", "TrunBox.CommonSampleDuration"} {
+			for i, ci := range callsIn(f, name, false) {
+				n++
+				key := fmt.Sprintf("%s:%s#%d", SSAFuncName(f), name, i)
+				args := ci.Common().Args
+				sl := backSlice(c, args[len(args)-1], 1)
+				hasTfhd := sliceHas(sl, "field", "TfhdBox.DefaultSampleDuration")
+				hasTrex := sliceHas(sl, "field", "TrexBox.DefaultSampleDuration")
+				if _, isPar := stripConv(args[len(args)-1]).(*ssa.Parameter); isPar {
+					r.OK(rule, key, c.Pos(ci.Pos()), "the default is a parameter of the caller")
+					continue
+				}
+				if hasTfhd && hasTrex {
+					r.OK(rule, key, c.Pos(ci.Pos()), "the default duration depends on tfhd and on trex")
+				} else {
+					r.Bad(rule, key, c.Pos(ci.Pos()), "the default sample duration passed to "+name+" is not resolved from both tfhd and trex: a default that comes from the other box is ignored")
+				}
+			}
+		}
+	}
+	_ = n
+}
+
+// ruleSetterOverwrites (C19) — MdhdBox.SetLanguage replaces the packed language: the stored value does not
+// depend on the previous value of the field.
+func ruleSetterOverwrites(c *Ctx, r *Report) {
+	f := c.ssaFunc(r, "DEP", "mp4", "MdhdBox.SetLanguage")
+	if f == nil {
+		return
+	}
+	key := "mp4.MdhdBox.SetLanguage:overwrites"
+	sts := storesTo(f, "MdhdBox.Language")
+	if len(sts) == 0 {
+		r.Bad("DEP", key, c.Pos(f.Pos()), "the language is not stored")
+		return
+	}
+	for _, st := range sts {
+		if sliceHas(backSlice(c, st.Val, 0), "field", "MdhdBox.Language") {
+			r.Bad("DEP", key, c.Pos(st.Pos()), "the new language code is combined with the previous value of the field: setting a language twice (default, then the real one) corrupts it")
+			return
+		}
+	}
+	r.OK("DEP", key, c.Pos(sts[0].Pos()), "the packed language is computed from the argument only")
+}
+
+// ruleAscArms (C18/C19) — SetAACDescriptor: an object type with parametric stereo (PSPresentFlag) is an SBR
+// type: the arm that sets PSPresentFlag also sets SBRPresentFlag and ExtensionFrequency.
+func ruleAscArms(c *Ctx, r *Report) {
+	f := c.ssaFunc(r, "DEP", "mp4", "TrakBox.SetAACDescriptor")
+	if f == nil {
+		return
+	}
+	key := "mp4.TrakBox.SetAACDescriptor:ps-implies-sbr"
+	var psTrue []*ssa.Store
+	for _, st := range storesTo(f, "AudioSpecificConfig.PSPresentFlag") {
+		if k, ok := st.Val.(*ssa.Const); ok && k.Value != nil && constant.BoolVal(k.Value) {
+			psTrue = append(psTrue, st)
+		}
+	}
+	if len(psTrue) == 0 {
+		r.Undecided("DEP", key, c.Pos(f.Pos()), "no arm sets PSPresentFlag")
+		return
+	}
+	for _, st := range psTrue {
+		sbr, ext := false, false
+		for _, o := range storesTo(f, "AudioSpecificConfig.SBRPresentFlag") {
+			if k, ok := o.Val.(*ssa.Const); ok && k.Value != nil && constant.BoolVal(k.Value) && (o.Block() == st.Block() || o.Block().Dominates(st.Block())) {
+				sbr = true
+			}
+		}
+		for _, o := range storesTo(f, "AudioSpecificConfig.ExtensionFrequency") {
+			if _, isC := o.Val.(*ssa.Const); !isC && (o.Block() == st.Block() || o.Block().Dominates(st.Block())) {
+				ext = true
+			}
+		}
+		if sbr && ext {
+			r.OK("DEP", key, c.Pos(st.Pos()), "the arm that sets PSPresentFlag also sets SBRPresentFlag and ExtensionFrequency")
+		} else {
+			r.Bad("DEP", key, c.Pos(st.Pos()), "the arm that sets PSPresentFlag does not set SBRPresentFlag and ExtensionFrequency (Go switch arms do not fall through): HE-AAC v2 is written with extension frequency 0")
+		}
+	}
+}
+
+// ruleCropCounts (C10) — the crop functions set the new entry/sample counts from the cut point, not from
+// the length of an optional table (a uniform-size stsz has no per-sample table).
+func ruleCropCounts(c *Ctx, r *Report) {
+	f := c.ssaFunc(r, "DEP", "cmd/mp4ff-crop", "cropStsz")
+	if f == nil {
+		return
+	}
+	key := "cmd/mp4ff-crop.cropStsz:sample-count-from-cut"
+	sts := storesTo(f, "StszBox.SampleNumber")
+	if len(sts) == 0 {
+		r.Bad("DEP", key, c.Pos(f.Pos()), "the sample count of the cropped stsz is not set")
+		return
+	}
+	for _, st := range sts {
+		requireDeps(c, r, "DEP", key, c.Pos(st.Pos()), st.Val, []string{"param:lastSampleNr"}, nil, "sample count of the cropped stsz")
+	}
 }
